@@ -21,6 +21,8 @@ def make_work(rng, tier):
         work.append({"id": "c01-%d" % i, "tables": tables, "runs": runs, "mode": "det" if det else "threaded",
                      "threads": rng.choice([1, 4]), "det_partitions": rng.choice([1, 2, 4]),
                      "sched": {"kind": rng.choice(["fifo", "lifo", "random"]), "seed": rng.below(1 << 30), "spurious": rng.choice([0, 0, 10])}})
+    from . import sqlfam
+    work += sqlfam.using_family(rng, 2 if tier == 'quick' else 12, 'c01') + sqlfam.limit_offset_family(rng, 3 if tier == 'quick' else 15, 'c01')
     return work
 
 
